@@ -515,7 +515,8 @@ class Machine:
             else:
                 exp = at + bt
             exp = np.broadcast_to(exp, actual.shape) if exp.shape != actual.shape and exp.size <= actual.size else exp
-            if exp.shape != actual.shape or not common.close(actual, exp, rtol=1e-12):
+            mag = float(np.max(np.abs(at))) + float(np.max(np.abs(bt)))   # cancellation: error scales with the operands
+            if exp.shape != actual.shape or not common.close(actual, exp, rtol=1e-12, atol=4e-15 * mag):
                 j = None
                 if exp.shape == actual.shape:
                     j = int(np.argmax(np.abs(actual - exp)))
